@@ -181,7 +181,7 @@ def shrink_graph(g):
 
 
 # ---- label families and insertion orders (C15 re-runs every property's cases through these) ----
-LABEL_FAMILIES = ["int", "bigint", "int257", "tuple", "frozenset", "str", "char", "mixed", "obj"]
+LABEL_FAMILIES = ["int", "bigint", "int257", "tuple", "frozenset", "str", "char", "mixed", "obj", "neg", "lag"]
 
 
 class NodeObj:
@@ -216,6 +216,10 @@ def labeler(case=None):
     elif fam == "obj":     # identity-hashed objects: the same v must always map to the same object
         _objs = {}
         f = lambda v: _objs.setdefault(v, NodeObj(v))  # noqa: E731
+    elif fam == "neg":     # negative ints: CPython has hash(-1) == hash(-2) == -2, so two distinct labels tie on their hash
+        f = lambda v: -(v + 1)  # noqa: E731
+    elif fam == "lag":     # (variable, -lag) tuples as the time-series classes use them: ("x", -1) and ("x", -2) hash equal as well
+        f = lambda v: ("x", -(v + 1))  # noqa: E731
     elif fam == "mixed":   # unorderable mix of types; includes the falsy labels 0, "" and ()
         f = lambda v: [0, "", (), "s3", 4, ("t", 5), frozenset({6}), "s7"][v] if v < 8 else (("m", v) if v % 2 else "".join(["m", str(v)]))  # noqa: E731
     else:
@@ -244,6 +248,34 @@ def ordered(case, items, salt=""):
 
 # ---- building pywhy-graphs objects (import lazily: sys.path is set by the framework) ----
 # every builder takes case= so that label family and insertion order can be varied (C15)
+def _decorate(Gobj, case):
+    """environment variants (framework.env_variants): case["_attrs"] decorates nodes, edges and the graph with attributes whose
+    keys are str, int and tuple (networkx allows any hashable key; `**d` expansion of such a dict raises TypeError), with mutable
+    values; case["_layers"] == "rot" removes the first edge-type layer and adds it back through the public API, so that
+    `edge_types` (a list in insertion order) comes in another order.  Neither changes the abstract graph."""
+    case = case or {}
+    if case.get("_layers") == "rot" and hasattr(Gobj, "remove_edge_type") and len(Gobj.edge_types) > 1:
+        t = list(Gobj.edge_types)[0]
+        Gt = Gobj.get_graphs(t)
+        Gobj.remove_edge_type(t)
+        Gobj.add_edge_type(Gt, t)
+    if case.get("_attrs"):
+        for i, n in enumerate(list(Gobj.nodes)):
+            d = Gobj.nodes[n]
+            d["role"] = "r%d" % (i % 3)
+            d[0] = i
+            d[("env", 1)] = [i]
+        Gobj.graph["title"] = "t"
+        Gobj.graph[7] = "g"
+        Gobj.graph[("k", 2)] = [1]
+        layers = Gobj.get_graphs().items() if hasattr(Gobj, "get_graphs") else [("directed", Gobj)]
+        for t, Gt in layers:
+            for j, (u, v, d) in enumerate(Gt.edges(data=True)):
+                d["w"] = j
+                d[3] = [j]
+                d[("e", t)] = 2
+
+
 def _fill(Gobj, g, case, names):
     lab, inv = labeler(case)
     for v in ordered(case, g["V"], "V"):
@@ -251,6 +283,7 @@ def _fill(Gobj, g, case, names):
     es = [(k, a, b) for k in "DBUC" if k in names for a, b in g[k]]
     for k, a, b in ordered(case, es, "E"):
         Gobj.add_edge(lab(a), lab(b), names[k])
+    _decorate(Gobj, case)
     return lab, inv
 
 
@@ -294,6 +327,7 @@ def to_digraph(g, case=None):
         Dg.add_node(lab(v))
     for a, b in ordered(case, g["D"], "E"):
         Dg.add_edge(lab(a), lab(b))
+    _decorate(Dg, case)
     return Dg, lab, inv
 
 
